@@ -58,6 +58,9 @@ def on_ready_cases() -> Any:
         "codec": st.sampled_from(["json", "pickle", "jsonfmt"]), "sid": st.text(alphabet="abcdef0123456789-", min_size=1, max_size=12),
         # an earlier schedule of the SAME task fired through the same scheduler instance, with labels of its own
         "before": st.one_of(st.none(), st.fixed_dictionaries({"labels": LABELS, "args": st.lists(JSONV, max_size=2)})),
+        # the schedule's own labels already contain a `schedule_id` (labels of a received scheduled message propagated to a
+        # follow-up schedule): the message must carry the id of the schedule that fires
+        "stale_sid": st.one_of(st.none(), st.none(), st.none(), st.sampled_from(["earlier", "first-schedule", ""])),
     })
 
 
@@ -140,6 +143,8 @@ def run_on_ready(c: Dict[str, Any]) -> Outcome:
         src = Src()
         sched = TaskiqScheduler(b, [src])
         kw = {"cron": "* * * * *"} if c["kind"] == "cron" else {"time": T0}
+        if c.get("stale_sid") is not None:
+            labels["schedule_id"] = c["stale_sid"]
         task = ScheduledTask(task_name="some.task", labels=dict(labels), args=list(c["args"]), kwargs=dict(c["kwargs"]), schedule_id=c["sid"], **kw)
         if c.get("before"):
             quiet = type("Quiet", (ScheduleSource,), {"get_schedules": get_schedules})()
